@@ -4,7 +4,9 @@ The element tree the writer emits is extracted from the builder code (sa/xmlw.py
 against the parsed XSD (sa/schema.py):
   X-NAME   every emitted child element / attribute is allowed by the schema type of its parent
   X-ORDER  children of an xs:sequence type are emitted in schema order
-  X-REQ    required children and attributes of a schema type are emitted
+  X-REQ    required children and attributes of a schema type are emitted, and not only under a test that
+           excludes an enum member whose value the schema accepts (such an object is expressible, the element
+           would be missing)
   X-NUM    text written into decimal-typed elements / attributes is produced by a positional
            formatter (float_to_str); str()/repr()/f-strings of a float-typed source may print
            exponent notation, which xs:decimal rejects
